@@ -6,6 +6,7 @@ package main
 import (
 	"fmt"
 	"math/big"
+	"strings"
 
 	"verifharness/hx"
 )
@@ -14,17 +15,17 @@ import (
 
 func pow2(n uint) *big.Int { return new(big.Int).Lsh(big.NewInt(1), n) }
 
-func cvInt(z *big.Int) hx.Sexp   { return hx.N("int", bigA(z)) }
-func cvIntS(s string) hx.Sexp    { return hx.N("int", hx.A(s)) }
-func cvHalf(h int64) hx.Sexp     { return hx.N("half", hx.I(h)) }
-func cvStr(s string) hx.Sexp     { return hx.N("str", hx.A(s)) }
-func cvBool(b bool) hx.Sexp      { return hx.N("bool", hx.B(b)) }
-func cvEnum(n string) hx.Sexp    { return hx.N("enum", hx.A(n)) }
+func cvInt(z *big.Int) hx.Sexp     { return hx.N("int", bigA(z)) }
+func cvIntS(s string) hx.Sexp      { return hx.N("int", hx.A(s)) }
+func cvHalf(h int64) hx.Sexp       { return hx.N("half", hx.I(h)) }
+func cvStr(s string) hx.Sexp       { return hx.N("str", hx.A(s)) }
+func cvBool(b bool) hx.Sexp        { return hx.N("bool", hx.B(b)) }
+func cvEnum(n string) hx.Sexp      { return hx.N("enum", hx.A(n)) }
 func cvList(xs ...hx.Sexp) hx.Sexp { return hx.N("list", xs...) }
 
 var cvNull = hx.A("null")
 
-func neg(z *big.Int) *big.Int          { return new(big.Int).Neg(z) }
+func neg(z *big.Int) *big.Int           { return new(big.Int).Neg(z) }
 func plus(z *big.Int, d int64) *big.Int { return new(big.Int).Add(z, big.NewInt(d)) }
 
 // boundary integers: 32-bit window, safe-integer window, 64-bit window (all but 2^63−1 are exact
@@ -44,7 +45,15 @@ var dateTimes = []string{"2020-01-02T03:04:05Z", "2020-01-02T03:04:05.123456789+
 var notDateTimes = []string{"2020-01-02", "2020-13-01T00:00:00Z", "2020-01-02 03:04:05Z"}
 
 var strPool = []hx.Sexp{cvStr(""), cvStr("1"), cvStr("abc"), cvStr("RED"), cvStr("true"),
-	cvStr(dateTimes[0]), cvStr(dateTimes[1]), cvStr(dateTimes[2]), cvStr(notDateTimes[0]), cvStr(notDateTimes[1]), cvStr(notDateTimes[2])}
+	cvStr(dateTimes[0]), cvStr(dateTimes[1]), cvStr(dateTimes[2]), cvStr(notDateTimes[0]), cvStr(notDateTimes[1]), cvStr(notDateTimes[2]),
+	cvStr("reject"),
+	// what Go's UnmarshalText takes beyond RFC 3339 proper (one-digit hour, comma, zone 24:00) …
+	cvStr("2020-01-02T3:04:05Z"), cvStr("2020-01-02T03:04:05,25Z"), cvStr("2020-02-29T23:59:59.999999999+24:00"),
+	// … and near misses it refuses
+	cvStr("2021-02-29T00:00:00Z"), cvStr("2020-01-02t03:04:05Z"), cvStr("2020-01-02T03:04:60Z"), cvStr("2020-01-02T03:04:05+25:00")}
+
+// thirteen: the integer the symbolic hook rejects.
+var thirteen = cvIntS("13")
 
 var enumPool = []hx.Sexp{cvEnum("RED"), cvEnum("GREEN"), cvEnum("PURPLE"), cvEnum("M")}
 
@@ -91,7 +100,7 @@ func validLeaves(t *Ty) []hx.Sexp {
 	case "scalar":
 		switch t.Name {
 		case "Int":
-			return append(append([]hx.Sexp{}, intBoundaries[:7]...), intBoundaries[8])
+			return append(append([]hx.Sexp{}, intBoundaries[:7]...), intBoundaries[8], thirteen)
 		case "Float":
 			return append(append([]hx.Sexp{}, halfPool...), intBoundaries[:15]...)
 		case "String":
@@ -101,7 +110,7 @@ func validLeaves(t *Ty) []hx.Sexp {
 		case "ID":
 			return append(append([]hx.Sexp{}, strPool[:4]...), append(append([]hx.Sexp{}, intBoundaries[:15]...), intBoundaries[17])...)
 		case "DateTime":
-			return strPool[5:8]
+			return append(append([]hx.Sexp{}, strPool[5:8]...), strPool[12:15]...)
 		case "LongInt":
 			return append(append([]hx.Sexp{}, intBoundaries[:11]...), intBoundaries[12])
 		}
@@ -114,16 +123,33 @@ func validLeaves(t *Ty) []hx.Sexp {
 type typeGen struct {
 	r      *hx.Rand
 	inputs int
+	// rich: also draw recursive input object types (references to an enclosing or an earlier
+	// definition), InputCoercion hooks and custom scalars. Off: the tree-shaped types only.
+	rich     bool
+	open     []*InputDef // definitions under construction (innermost last)
+	finished []*InputDef
+	wantDflt []*Field // fields that get a default once every definition is complete
 }
 
 func (g *typeGen) named() *Ty {
+	if g.rich && g.r.Chance(1, 8) {
+		return customTy(hx.Pick(g.r, []string{"Even", "Tag"}))
+	}
 	if g.r.Chance(1, 4) {
 		return hx.Pick(g.r, []*Ty{colorTy, sizeTy})
 	}
 	return scalarTy(hx.Pick(g.r, scalarNames))
 }
 
-func (g *typeGen) gen(depth int) *Ty {
+// gen draws a type. allowRec: a reference back to a definition under construction may be drawn
+// here (never directly under a non-null wrapper: `input In { e: In! }` has no values).
+func (g *typeGen) gen(depth int, allowRec bool) *Ty {
+	if g.rich && allowRec && len(g.open) > 0 && g.r.Chance(1, 5) {
+		return inputTy(hx.Pick(g.r, g.open))
+	}
+	if g.rich && len(g.finished) > 0 && g.r.Chance(1, 12) {
+		return inputTy(hx.Pick(g.r, g.finished))
+	}
 	if depth <= 0 {
 		return g.named()
 	}
@@ -133,81 +159,135 @@ func (g *typeGen) gen(depth int) *Ty {
 	case n < 45:
 		nf := g.r.Range(1, 3)
 		g.inputs++
-		t := &Ty{K: "input", Name: fmt.Sprintf("In%d", g.inputs)}
+		d := &InputDef{Name: fmt.Sprintf("In%d", g.inputs), Hooked: g.rich && g.r.Chance(1, 4)}
+		g.open = append(g.open, d)
 		for i := 0; i < nf; i++ {
-			ft := g.gen(depth - 1)
+			ft := g.gen(depth-1, true)
 			f := &Field{Name: string(rune('a' + i)), Ty: ft}
 			if g.r.Chance(2, 5) {
-				f.Dflt = g.dflt(ft)
+				g.wantDflt = append(g.wantDflt, f)
 			}
-			t.Fields = append(t.Fields, f)
+			d.Fields = append(d.Fields, f)
 		}
-		return t
+		g.open = g.open[:len(g.open)-1]
+		g.finished = append(g.finished, d)
+		return inputTy(d)
 	case n < 75:
-		return listTy(g.gen(depth - 1))
+		return listTy(g.gen(depth-1, true))
 	default:
-		return nnTy(g.gen(depth - 1))
+		return nnTy(g.gen(depth-1, false))
 	}
 }
 
+// top draws a complete type: all definitions finished, then the declared defaults.
+func (g *typeGen) top(depth int) *Ty {
+	t := g.gen(depth, false)
+	for _, f := range g.wantDflt {
+		f.Dflt = g.dflt(f.Ty)
+	}
+	g.wantDflt = nil
+	return t
+}
+
 // dflt draws a declared default for a position of type t: a conforming Go value (the coercion of a
-// valid client value) or schema.Null at a nullable type.
+// valid client value in which every field of every object is written out, so that it does not
+// depend on defaults declared later) or schema.Null at a nullable type. No default is declared
+// when the value would contain the result of a hook (the harness counts hook invocations).
 func (g *typeGen) dflt(t *Ty) *hx.Sexp {
 	if t.K != "nn" && g.r.Chance(1, 4) {
 		n := hx.A("nil")
 		return &n
 	}
-	v := (&valueGen{r: g.r}).valid(t, false, true)
+	v := (&valueGen{r: g.r, explicit: true}).valid(t, false, true, 3)
 	c, ok := refCoerce(t, v)
 	if !ok {
+		if hookInside(t, map[string]bool{}) {
+			return nil // the symbolic hook rejected the drawn value
+		}
 		panic("generated default does not coerce: " + t.Sexp().String() + " " + v.String())
 	}
+	if strings.Contains(c.String(), "$hook") {
+		return nil
+	}
 	return &c
+}
+
+func hookInside(t *Ty, seen map[string]bool) bool {
+	switch t.K {
+	case "list", "nn":
+		return hookInside(t.Elem, seen)
+	case "input":
+		if t.Def.Hooked {
+			return true
+		}
+		if seen[t.Name] {
+			return false
+		}
+		seen[t.Name] = true
+		for _, f := range t.Def.Fields {
+			if hookInside(f.Ty, seen) {
+				return true
+			}
+		}
+	}
+	return false
 }
 
 // ---- client values ---------------------------------------------------------------------------------
 
 type valueGen struct {
-	r    *hx.Rand
-	junk int // per-node chance (in 100) of an arbitrary value instead of a valid one
+	r        *hx.Rand
+	junk     int  // per-node chance (in 100) of an arbitrary value instead of a valid one
+	explicit bool // write every field of every object (null for the ones a budget cuts off)
 }
 
-// valid draws a value that coerces at t. asItem: the value is an item of a list value (a list type
-// then needs a list or null). nonNull: do not draw null at the top.
-func (g *valueGen) valid(t *Ty, asItem, nonNull bool) hx.Sexp {
+func customLeaves(name string) []hx.Sexp {
+	if name == "Even" {
+		return []hx.Sexp{cvIntS("0"), cvIntS("2"), cvIntS("-4"), cvIntS("1000"), cvInt(pow2(53)), cvInt(pow2(62)), cvInt(neg(pow2(63)))}
+	}
+	return []hx.Sexp{cvStr("abc"), cvStr("1"), cvStr("RED"), cvStr("reject")}
+}
+
+// valid draws a value that coerces at t (but for what the symbolic hook rejects). asItem: the value
+// is an item of a list value (a list type then needs a list or null). nonNull: do not draw null at
+// the top. budget bounds the object nesting (recursive types).
+func (g *valueGen) valid(t *Ty, asItem, nonNull bool, budget int) hx.Sexp {
 	if g.junk > 0 && g.r.Intn(100) < g.junk {
 		return g.arbitrary(2)
 	}
 	if t.K == "nn" {
-		return g.valid(t.Elem, asItem, true)
+		return g.valid(t.Elem, asItem, true, budget)
 	}
-	if !nonNull && g.r.Chance(1, 7) {
+	if !nonNull && (g.r.Chance(1, 7) || (budget <= 0 && t.K == "input")) {
 		return cvNull
 	}
 	switch t.K {
 	case "scalar", "enum":
 		return hx.Pick(g.r, validLeaves(t))
+	case "custom":
+		return hx.Pick(g.r, customLeaves(t.Name))
 	case "list":
-		if !asItem && g.r.Chance(1, 4) {
+		if !asItem && budget > 0 && g.r.Chance(1, 4) {
 			// a single item in place of the list
-			if v := g.valid(t.Elem, false, false); !isNullX(v) && tag(v) != "list" {
+			if v := g.valid(t.Elem, false, false, budget); !isNullX(v) && tag(v) != "list" {
 				return v
 			}
 		}
 		n := g.r.Intn(4)
+		if budget <= 0 {
+			n = 0
+		}
 		items := make([]hx.Sexp, n)
 		for i := range items {
-			items[i] = g.valid(t.Elem, true, false)
+			items[i] = g.valid(t.Elem, true, false, budget)
 		}
 		return cvList(items...)
 	case "input":
 		out := []hx.Sexp{}
-		for _, f := range t.Fields {
+		for _, f := range t.Def.Fields {
 			required := f.Ty.K == "nn" && f.Dflt == nil
-			if required || g.r.Chance(3, 5) {
-				out = append(out, kv(f.Name, g.valid(f.Ty, false, false)))
-			} else if g.junk > 0 && required && g.r.Intn(100) < g.junk {
-				continue
+			if required || g.explicit || g.r.Chance(3, 5) {
+				out = append(out, kv(f.Name, g.valid(f.Ty, false, false, budget-1)))
 			}
 		}
 		if g.junk > 0 && g.r.Intn(100) < g.junk/2 {
@@ -258,6 +338,7 @@ const (
 	mVarDefaultUnset      // $x: L = <the value>, no runtime value
 	mVarUnset             // $x: nullable(L), no default, no runtime value (omitted positions, null list items)
 	mVarNearMiss          // $x: a type close to L but (usually) not compatible with it, value provided
+	mVarGoKind            // $x: L, value provided as Go values of other kinds than encoding/json produces
 )
 
 type position struct {
@@ -335,14 +416,102 @@ func nearMiss(r *hx.Rand, L *Ty) *Ty {
 	}
 }
 
+// intKinds with their ranges.
+var intKinds = []struct {
+	name   string
+	lo, hi *big.Int
+}{
+	{"i8", big.NewInt(-128), big.NewInt(127)}, {"u8", big.NewInt(0), big.NewInt(255)},
+	{"i16", big.NewInt(-32768), big.NewInt(32767)}, {"u16", big.NewInt(0), big.NewInt(65535)},
+	{"i32", big.NewInt(-2147483648), big.NewInt(2147483647)}, {"u32", big.NewInt(0), big.NewInt(4294967295)},
+	{"i64", neg(pow2(63)), plus(pow2(63), -1)}, {"u64", big.NewInt(0), plus(pow2(64), -1)},
+	{"int", neg(pow2(63)), plus(pow2(63), -1)}, {"uint", big.NewInt(0), plus(pow2(64), -1)},
+}
+
+func exactFloat32(h *big.Int) bool {
+	f := halfToFloat(h)
+	return float64(float32(f)) == f && exactFloat(h)
+}
+
+// goKindOf re-encodes a client value with Go kinds other than the JSON ones where it can: integers
+// as a random sized integer kind that holds them (or float32), halves as float32, strings as []byte
+// or json.Number, anything as an opaque Go value now and then. denotes=false: some part no longer
+// denotes the client value (json.Number, []byte outside DateTime, opaque values) — those are
+// rejected by every built-in coercer.
+func goKindOf(r *hx.Rand, v hx.Sexp, denotes *bool) hx.Sexp {
+	if !v.IsList {
+		if r.Chance(1, 4) {
+			*denotes = false
+			return hx.N("other", hx.A("nilptr"))
+		}
+		return hx.A("null")
+	}
+	if r.Chance(1, 12) {
+		*denotes = false
+		return hx.N("other", hx.A(hx.Pick(r, otherTags)))
+	}
+	switch tag(v) {
+	case "int":
+		z := bigOf(v.List[1])
+		if r.Chance(1, 8) {
+			*denotes = false
+			return hx.N("jsonnumber", hx.A(z.String()))
+		}
+		if h := new(big.Int).Lsh(z, 1); r.Chance(1, 6) && exactFloat32(h) {
+			return hx.N("f32", bigA(h))
+		}
+		fits := []string{}
+		for _, k := range intKinds {
+			if within(z, k.lo, k.hi) {
+				fits = append(fits, k.name)
+			}
+		}
+		if len(fits) == 0 {
+			return cvToJSON(v)
+		}
+		return hx.N("intk", hx.A(hx.Pick(r, fits)), bigA(z))
+	case "half":
+		if exactFloat32(bigOf(v.List[1])) && r.Bool() {
+			return hx.N("f32", v.List[1])
+		}
+		return cvToJSON(v)
+	case "str":
+		if r.Chance(1, 3) {
+			// []byte denotes the string only for DateTime (parseDateTime accepts it); elsewhere it is rejected
+			*denotes = false
+			return hx.N("bytes", v.List[1])
+		}
+		if r.Chance(1, 8) {
+			*denotes = false
+			return hx.N("jsonnumber", v.List[1])
+		}
+		return v
+	case "list":
+		out := []hx.Sexp{}
+		for _, e := range v.List[1:] {
+			out = append(out, goKindOf(r, e, denotes))
+		}
+		return hx.N("list", out...)
+	case "obj":
+		out := []hx.Sexp{}
+		for _, e := range v.List[1:] {
+			out = append(out, kv(e.List[0].Atom, goKindOf(r, e.List[1], denotes)))
+		}
+		return hx.N("obj", out...)
+	}
+	return cvToJSON(v)
+}
+
 type speller struct {
-	pick    func(p *position) mode
-	r       *hx.Rand // for the literal defaults of mVarNullableDflt
-	varDefs []varDef
-	raw     []named
-	lossy   bool // some lifted value is not kept by JSON / is a single item lifted at an item position
-	gap     bool // a variable sits inside an object literal at a list-typed position (F-04d)
-	n       int
+	pick     func(p *position) mode
+	r        *hx.Rand // for the literal defaults of mVarNullableDflt
+	varDefs  []varDef
+	raw      []named
+	goKinds  bool // some variable carries Go kinds other than JSON's …
+	goBroken bool // … and some re-encoded part no longer denotes the client value
+	lossy    bool // some lifted value is not kept by JSON / is a single item lifted at an item position
+	gap      bool // a variable sits inside an object literal at a list-typed position (F-04d)
+	n        int
 }
 
 func (s *speller) fresh() string { s.n++; return fmt.Sprintf("v%d", s.n) }
@@ -388,7 +557,7 @@ func (s *speller) spell(p position) (lit hx.Sexp, written bool) {
 			s.raw = append(s.raw, named{name, cvToJSON(v)})
 		case mVarNullableDflt:
 			vt := nullable(p.L)
-			d := cvToLit((&valueGen{r: s.r}).valid(vt, false, true))
+			d := cvToLit((&valueGen{r: s.r}).valid(vt, false, true, 2))
 			s.varDefs = append(s.varDefs, varDef{Name: name, Ty: vt, Dflt: &d})
 			s.raw = append(s.raw, named{name, cvToJSON(v)})
 		case mVarDefaultUnset:
@@ -396,6 +565,15 @@ func (s *speller) spell(p position) (lit hx.Sexp, written bool) {
 			s.varDefs = append(s.varDefs, varDef{Name: name, Ty: p.L, Dflt: &d})
 		case mVarUnset:
 			s.varDefs = append(s.varDefs, varDef{Name: name, Ty: nullable(p.L)})
+		case mVarGoKind:
+			denotes := true
+			raw := goKindOf(s.r, v, &denotes)
+			s.goKinds = true
+			if !denotes {
+				s.goBroken = true
+			}
+			s.varDefs = append(s.varDefs, varDef{Name: name, Ty: p.L})
+			s.raw = append(s.raw, named{name, raw})
 		case mVarNearMiss:
 			// not a spelling of the same client value in general: only the model and the
 			// conformance oracle judge it
@@ -449,7 +627,7 @@ func (s *speller) spell(p position) (lit hx.Sexp, written bool) {
 		}
 		if in != nil {
 			// fields the client value leaves out may still be written as an unset variable
-			for _, f := range in.Fields {
+			for _, f := range in.Def.Fields {
 				if !given[f.Name] {
 					if l, w := s.spell(position{L: f.Ty, v: nil, locDefault: fieldLocDefault(f.Dflt), depth: p.depth + 1}); w {
 						out = append(out, kv(f.Name, l))
@@ -467,17 +645,19 @@ func (s *speller) spell(p position) (lit hx.Sexp, written bool) {
 
 // Group: one argument `a: T [= default]` and one abstract client value for it, in several spellings.
 type Group struct {
-	Site   string   `json:"site"`    // field | directive | skip | include
-	T      string   `json:"type"`    // sexp
-	Dflt   string   `json:"default"` // none | (some goval)
-	V      string   `json:"value"`   // cv sexp | omitted
-	Extra  bool     `json:"extra_argument,omitempty"`
-	ImplA  string   `json:"impl_a_arg_defs,omitempty"` // polymorphic site: the implementers' definitions
-	ImplB  string   `json:"impl_b_arg_defs,omitempty"`
-	Via    string   `json:"via,omitempty"`
-	Cases  []Case   `json:"cases,omitempty"` // explicit spellings (random ones); empty = the deterministic set
-	Lossy  []bool   `json:"lossy,omitempty"`
-	Gap    []bool   `json:"gap,omitempty"`
+	Site   string `json:"site"`          // field | directive | skip | include
+	Env    string `json:"env,omitempty"` // the input object types `type` refers to
+	T      string `json:"type"`          // sexp
+	Dflt   string `json:"default"`       // none | (some goval)
+	V      string `json:"value"`         // cv sexp | omitted
+	Extra  bool   `json:"extra_argument,omitempty"`
+	ImplA  string `json:"impl_a_arg_defs,omitempty"` // polymorphic site: the implementers' definitions
+	ImplB  string `json:"impl_b_arg_defs,omitempty"`
+	Via    string `json:"via,omitempty"`
+	Cases  []Case `json:"cases,omitempty"` // explicit spellings (random ones); empty = the deterministic set
+	Lossy  []bool `json:"lossy,omitempty"`
+	Gap    []bool `json:"gap,omitempty"`
+	Sound  []bool `json:"sound,omitempty"`
 	t      *Ty
 	dflt   *hx.Sexp
 	v      *hx.Sexp
@@ -485,11 +665,23 @@ type Group struct {
 }
 
 func (g *Group) resolve() error {
+	envText := g.Env
+	if envText == "" {
+		envText = "()"
+	}
+	ex, err := hx.ParseSexp(envText)
+	if err != nil {
+		return err
+	}
+	env, err := parseEnv(ex)
+	if err != nil {
+		return err
+	}
 	tx, err := hx.ParseSexp(g.T)
 	if err != nil {
 		return err
 	}
-	if g.t, err = parseTy(tx); err != nil {
+	if g.t, err = parseTy(tx, env); err != nil {
 		return err
 	}
 	dx, err := hx.ParseSexp(g.Dflt)
@@ -511,7 +703,9 @@ func (g *Group) resolve() error {
 }
 
 func newGroup(site string, t *Ty, dflt *hx.Sexp, v *hx.Sexp, extra bool) *Group {
-	g := &Group{Site: site, T: t.Sexp().String(), Dflt: dfltSexp(dflt).String(), V: "omitted", Extra: extra, t: t, dflt: dflt, v: v}
+	defs := map[string]*InputDef{}
+	collectDefs(t, defs)
+	g := &Group{Site: site, Env: envSexp(defs).String(), T: t.Sexp().String(), Dflt: dfltSexp(dflt).String(), V: "omitted", Extra: extra, t: t, dflt: dflt, v: v}
 	if v != nil {
 		g.V = v.String()
 	}
@@ -526,7 +720,7 @@ func (g *Group) argName() string {
 }
 
 // build turns one spelling strategy into a case.
-func (g *Group) build(label string, r *hx.Rand, pick func(p *position) mode) (Case, bool, bool) {
+func (g *Group) build(label string, r *hx.Rand, pick func(p *position) mode) (Case, bool, bool, bool) {
 	s := &speller{pick: pick, r: r}
 	top := position{L: g.t, v: g.v, top: true, locDefault: g.dflt != nil}
 	if g.Site != "field" && g.Site != "poly" {
@@ -556,9 +750,12 @@ func (g *Group) build(label string, r *hx.Rand, pick func(p *position) mode) (Ca
 	for _, x := range s.raw {
 		raw = append(raw, kv(x.Name, x.V))
 	}
-	c := Case{Site: g.Site, ArgDefs: hx.L(argDefs...).String(), VarDefs: hx.L(vds...).String(),
+	c := Case{Site: g.Site, Env: g.Env, ArgDefs: hx.L(argDefs...).String(), VarDefs: hx.L(vds...).String(),
 		Args: hx.L(args...).String(), Raw: hx.L(raw...).String(), Label: label, ImplA: g.ImplA, ImplB: g.ImplB, Via: g.Via}
-	return c, s.lossy, s.gap
+	// A Go-kind spelling is not compared with the other spellings (most kinds are refused), but when
+	// every re-encoded part still denotes the client value an accepted result must be the reference's.
+	sound := s.goKinds && !s.goBroken && !s.lossy
+	return c, s.lossy || s.goKinds, s.gap, sound
 }
 
 type strategy struct {
@@ -612,6 +809,13 @@ var deterministic = []strategy{
 		}
 		return mInline
 	}},
+	{"variable of Go kinds", topOnly(mVarGoKind)},
+	{"nested: leaves as variables of Go kinds", func(p *position) mode {
+		if !p.top && p.leaf && p.v != nil {
+			return mVarGoKind
+		}
+		return mInline
+	}},
 	{"variable of a near-miss type", topOnly(mVarNearMiss)},
 	{"nested: leaves through variables of near-miss types", func(p *position) mode {
 		if !p.top && p.leaf && p.v != nil {
@@ -622,7 +826,7 @@ var deterministic = []strategy{
 }
 
 func randomStrategy(r *hx.Rand) strategy {
-	w := []int{r.Range(1, 6), r.Range(0, 4), r.Range(0, 2), r.Range(0, 3), r.Range(0, 2), r.Range(0, 2), r.Intn(2)}
+	w := []int{r.Range(1, 6), r.Range(0, 4), r.Range(0, 2), r.Range(0, 3), r.Range(0, 2), r.Range(0, 2), r.Intn(2), r.Intn(3)}
 	total := 0
 	for _, x := range w {
 		total += x
@@ -641,19 +845,23 @@ func randomStrategy(r *hx.Rand) strategy {
 
 // spellings returns the group's cases (explicit ones when present, else the deterministic set plus
 // `random` random spellings), without duplicates.
-func (g *Group) spellings(r *hx.Rand, random int) (cases []Case, lossy, gap []bool) {
+func (g *Group) spellings(r *hx.Rand, random int) (cases []Case, lossy, gap, sound []bool) {
 	if len(g.Cases) > 0 {
-		return g.Cases, g.Lossy, g.Gap
+		sound = g.Sound
+		if len(sound) != len(g.Cases) {
+			sound = make([]bool, len(g.Cases))
+		}
+		return g.Cases, g.Lossy, g.Gap, sound
 	}
 	seen := map[string]bool{}
 	add := func(s strategy) {
-		c, l, gp := g.build(s.label, r, s.pick)
+		c, l, gp, sd := g.build(s.label, r, s.pick)
 		key := c.ArgDefs + c.VarDefs + c.Args + c.Raw
 		if seen[key] {
 			return
 		}
 		seen[key] = true
-		cases, lossy, gap = append(cases, c), append(lossy, l), append(gap, gp)
+		cases, lossy, gap, sound = append(cases, c), append(lossy, l), append(gap, gp), append(sound, sd)
 	}
 	for _, s := range deterministic {
 		add(s)
